@@ -11,6 +11,7 @@ RULE = (
     "T1-T4. Non-trivial = schedule not the default model AND binding (some +-1/flip neighbour violates a task-timing "
     "rule); distinct by SHA-1 of (spec, schedule)."
 )
+TECHNIQUE = "Hypothesis-generated problems; schedules admitted by the encoder (steering pins, extremal pushes, blocking-clause enumeration) judged by a z3-free reference model"
 ASSUMPTIONS = [
     "z3 sat/unsat answers and models are trusted",
     "vf/adapter.py reads task._start/_end/_duration/_scheduled and problem._horizon correctly",
